@@ -97,7 +97,7 @@ def build(conn):
             exts.append(T.ext(0x0029, b"\x00\x00"))
         if conn.get("sh_ext_order"):
             exts.reverse()
-        sh = T.server_hello(T.TLS12, srand, sid, conn["suite"], exts)
+        sh = T.server_hello(T.TLS12, srand, sid, conn.get("sh_suite_wire", conn["suite"]), exts)
     else:
         if shx == "none":
             exts = None
@@ -121,7 +121,7 @@ def build(conn):
             if exts is None:
                 exts = []
             exts.insert(R.fork("etmpos").below(len(exts) + 1), T.ext(0x0016, b""))
-        sh = T.server_hello(ver, srand, sid, conn["suite"], exts)
+        sh = T.server_hello(ver, srand, sid, conn.get("sh_suite_wire", conn["suite"]), exts)
     keys["ch_record"] = ch_rec.hex()
 
     if ver != T.TLS13:
